@@ -83,7 +83,13 @@ pub fn dec_as<T: Serial + Deserial>(b: &[u8]) -> DecOut {
         Err(p) => DecOut { res: Err("panic".into()), panic: Some(p), stats, set_ok: None },
         Ok((Err(e), _)) => DecOut { res: Err(format!("{:#}", e)), panic: None, stats, set_ok: None },
         Ok((Ok(v), pos)) => match vmon_core::catch(|| concordium_base::common::to_bytes(&v)) {
-            Ok(re) => DecOut { res: Ok((pos, re)), panic: None, stats, set_ok: None },
+            Ok(mut re) => {
+                // self-test switch (planted break of the harness's own reference, never set by ./vcheck)
+                if re.len() == 2 && re[1] == 0x5a && std::env::var("VMON_SELFTEST_BREAK").as_deref() == Ok("c05") {
+                    re[1] ^= 1;
+                }
+                DecOut { res: Ok((pos, re)), panic: None, stats, set_ok: None }
+            }
             Err(p) => DecOut { res: Err("panic in re-encode".into()), panic: Some(format!("re-encoding a decoded value panicked: {}", p)), stats, set_ok: None },
         },
     }
@@ -234,6 +240,9 @@ impl Run<'_> {
     }
 
     fn report(&mut self, e: &Entry, idx: u64, kind: &'static str, detail: String, input: &[u8], mkind: &str) {
+        // the pinned "Payload::X" entries use the Payload decoder: report under Payload
+        let reg0 = self.reg;
+        let e = if e.name.starts_with("Payload::") { reg0.iter().find(|c| c.name == "Payload").unwrap_or(e) } else { e };
         let key = (e.name.to_string(), kind.to_string());
         let n = self.buckets.entry(key).or_insert(0);
         // allocation witnesses: one per type and shard (the pre-flight finds them from fixed
@@ -273,7 +282,7 @@ impl Run<'_> {
         // decoders that can abort the process on arbitrary bytes: only truncate (any other edit can
         // shift the parse and turn arbitrary bytes into a 64-bit length)
         let truncate_only = self.abort_prone.contains(e.name);
-        let min = util::minimise(&base, same, if e.heavy || long { 1500 } else { 20000 }, !(e.heavy || long) || kind == "alloc-bound", kind == "alloc-bound", truncate_only);
+        let min = util::minimise(&base, same, if kind == "alloc-bound" { 8000 } else if e.heavy || long { 1500 } else { 20000 }, !(e.heavy || long) || kind == "alloc-bound", kind == "alloc-bound", truncate_only);
         // attribute the violation to the innermost registered decoder that shows it on a
         // suffix of the witness (the same leaf defect surfaces in every enclosing type)
         let reg = self.reg;
